@@ -198,6 +198,23 @@ func VF_C07_ready_order() { c07ReadyOrder() }
 // the same obligation under C08: nothing is published (and so acknowledged) before it is in the WAL
 func VF_C08_persist_before_publish() { c07ReadyOrder() }
 
+// c07Probe: the first bytes of the (single) WAL segment file, read directly: a cheap way for the native
+// replay to see whether a Save has reached the file since the last probe
+func c07Probe() string {
+	ents, _ := os.ReadDir(filepath.Join(c07Dir, "wal"))
+	for _, e := range ents {
+		f, err := os.Open(filepath.Join(c07Dir, "wal", e.Name()))
+		if err != nil {
+			continue
+		}
+		buf := make([]byte, 8192)
+		n, _ := f.ReadAt(buf, 0)
+		f.Close()
+		return string(buf[:n])
+	}
+	return ""
+}
+
 func c07WALObject() *wal.WAL {
 	if vfIsSymbolic() {
 		return &wal.WAL{}
@@ -242,12 +259,20 @@ func c07ReadyOrder() {
 	if committed {
 		rd.CommittedEntries = []raftpb.Entry{{Index: 1, Term: 1, Data: c07Payload('x')}}
 	}
+	before := ""
+	if !vfIsSymbolic() {
+		before = c07Probe()
+	}
 	node.readyC <- rd
 	persistedAtPublish := true
 	if committed {
 		c := <-commitC
 		// what the state machine (and through it the client) sees must already be in the WAL
-		_, _, persistedAtPublish = c07Persisted()
+		if vfIsSymbolic() {
+			_, _, persistedAtPublish = c07Persisted()
+		} else {
+			persistedAtPublish = c07Probe() != before
+		}
 		vfAssert(len(c.Data) == 1, "publish-content")
 		close(c.ApplyDoneC)
 	}
